@@ -116,7 +116,7 @@ Qed.
 Lemma transfer_preserves_ok : forall fuel fx libs orphan, transfer_ok (transfer fuel fx libs orphan).
 Proof.
   induction fuel as [|f IH]; intros fx libs orphan u s s' m c n Hu Hs H; cbn [transfer] in H; [discriminate|].
-  destruct (models_equivalent_units libs (us_T s) (transfer_home orphan u s) (transfer_qname orphan u) (us_T s)) as [tg| | |];
+  destruct (models_equivalent_units fx libs (us_T s) (transfer_home orphan u s) (transfer_qname orphan u) (us_T s)) as [tg| | |];
     cbn [fbind] in H; try discriminate.
   destruct tg as [tname|].
   - destruct (String.eqb tname (u_name u)); inversion H; subst; [exact Hs | apply us_op_ok; exact Hs].
@@ -543,7 +543,7 @@ Proof.
   set (copy1 := c_set_name (c_name c) copy0) in *.
   set (copy2 := c_set_kids (c_kids copy1 ++ (if fx_late fx then [] else pk)) copy1) in *.
   destruct (units_used fuel (clone_units_list (OFresh t1) (m_units L)) copy2) as [required| | |]; cbn [fbind] in H; try discriminate.
-  destruct (unique_required libs (clone_units_list (OFresh t1) (m_units L)) required [] []) as [[uniq alias]| | |]; cbn [fbind] in H; try discriminate.
+  destruct (unique_required fx libs (clone_units_list (OFresh t1) (m_units L)) required [] []) as [[uniq alias]| | |]; cbn [fbind] in H; try discriminate.
   destruct (declash fx (comps_names (f_comps fs)) (c_kids copy1) pk) as [[[ck pk'] dn]| | |] eqn:Ed; cbn [fbind] in H; try discriminate.
   destruct (declash_owners _ _ _ _ _ _ _ Ed) as [Hock Hopk].
   set (copy3a := c_set_kids (ck ++ (if fx_late fx then [] else pk')) copy2) in *.
@@ -644,7 +644,7 @@ Lemma flatten_loop_ok : forall rounds fuel fx libs fs fs', libs_tagged libs -> f
   flatten_loop rounds fuel fx libs fs = FOk fs' -> fs_ok fs'.
 Proof.
   induction rounds as [|r IH]; intros fuel fx libs fs fs' Hl Hfs H; cbn [flatten_loop] in H; [discriminate|].
-  destruct (has_imports fuel fs) as [b| | |]; cbn [fbind] in H; try discriminate.
+  destruct (has_imports fx libs fuel fs) as [b| | |]; cbn [fbind] in H; try discriminate.
   destruct b; [|inversion H; subst; exact Hfs].
   destruct (top_units_loop fuel fx libs 0 fs) as [fs1| | |] eqn:E1; cbn [fbind] in H; try discriminate.
   destruct (top_comps_loop fuel fx libs (List.length (f_comps fs1)) 0 fs1) as [fs2| | |] eqn:E2; cbn [fbind] in H; try discriminate.
